@@ -11,6 +11,7 @@ import (
 	"sort"
 	"strconv"
 	"strings"
+	"unicode"
 	"unicode/utf8"
 
 	"github.com/Vedant9500/WTF/internal/cache"
@@ -107,7 +108,40 @@ func keyjsonOptTokens(r *Rng, o cache.SearchOptions) (toks []string, floats []fl
 	return
 }
 
+// keyjsonDriverLower is the lower-case mapping the driver's query normaliser implements (Driver/CacheLayer.lean `lowerCp`): ASCII,
+// Latin-1, basic Greek and Cyrillic capitals, U+0130, U+212A, U+212B.
+func keyjsonDriverLower(c rune) rune {
+	switch {
+	case c >= 65 && c <= 90, c >= 0xC0 && c <= 0xDE && c != 0xD7, c >= 0x391 && c <= 0x3A9 && c != 0x3A2, c >= 0x410 && c <= 0x42F:
+		return c + 32
+	case c == 0x130:
+		return 0x69
+	case c == 0x212A:
+		return 0x6B
+	case c == 0x212B:
+		return 0xE5
+	}
+	return c
+}
+
+// keyjsonKnownCase replaces every letter whose lower-case form the driver's normaliser does not know (the query text is
+// lower-cased by the key; the text model of THIS domain carries a fixed table, not the per-case rune facts of the search domain)
+func keyjsonKnownCase(q string) string {
+	var b strings.Builder
+	for i := 0; i < len(q); {
+		c, size := utf8.DecodeRuneInString(q[i:])
+		if !(c == utf8.RuneError && size == 1) && unicode.ToLower(c) != keyjsonDriverLower(c) {
+			b.WriteByte('x')
+		} else {
+			b.WriteString(q[i : i+size])
+		}
+		i += size
+	}
+	return b.String()
+}
+
 func keyjsonLine(r *Rng, q string, o cache.SearchOptions) string {
+	q = keyjsonKnownCase(q)
 	toks, floats := keyjsonOptTokens(r, o)
 	seen := map[uint64]bool{}
 	var fs []string
